@@ -28,12 +28,6 @@ func init() {
 }
 
 const wfPrelude = `
-; A5: two boundaries of the same decoding are at least one record apart
-(assert (forall ((a (Array Int Real)) (o Int) (n Int) (i Int) (k Int))
- (! (=> (and (wfp a o n) (bnd a o n i) (bnd a o n k) (< i k)) (>= k (+ i (tagLen (select a (+ o i))))))
-    :pattern ((bnd a o n i) (bnd a o n k)))))
-; I0: the empty sequence
-(assert (forall ((a (Array Int Real)) (o Int)) (! (and (wfp a o 0) (forall ((i Int)) (! (= (bnd a o 0 i) (= i 0)) :pattern ((bnd a o 0 i))))) :pattern ((wfp a o 0)))))
 `
 
 const wfDefs = `(define-fun isTag ((t Real)) Bool (or (= t 1.0) (= t 2.0) (= t 4.0) (= t 8.0) (= t 16.0) (= t 32.0)))
@@ -108,6 +102,15 @@ func (x *Exec) unfoldBndD(s *State, a, o, n, i *Term, depth int, dir int) {
 		bwd = True
 	}
 	s.assume(Implies(g, And(Cmp("<=", IntLit(0), i), Cmp("<=", i, n), fwd, bwd)))
+	// A5 for this ground boundary: any other boundary of the same decoding is at least one record away
+	if !i.hasBound && !a.hasBound && !o.hasBound && !n.hasBound && dir == 0 {
+		k := BoundVar(sanitizeSym(x.freshName("ak")), SInt)
+		bk := bndT(a, o, n, k)
+		tk := Select(a, Arith("+", o, k))
+		s.assume(Forall([]*Term{k}, Implies(And(g, bk), And(
+			Implies(Cmp("<", i, k), Cmp(">=", k, Arith("+", i, lt))),
+			Implies(Cmp("<", k, i), Cmp(">=", i, Arith("+", k, tagLenT(tk)))))), []*Term{bk}))
+	}
 	if depth > 1 {
 		if dir <= 0 {
 			x.unfoldBndD(s, a, o, n, Arith("-", i, lu), depth-1, -1)
@@ -121,8 +124,14 @@ func (x *Exec) unfoldBndD(s *State, a, o, n, i *Term, depth int, dir int) {
 func (x *Exec) mentionWf(s *State, a, o, n *Term) *Term {
 	w := wfpT(a, o, n)
 	s.assume(Implies(w, And(Cmp(">=", n, IntLit(0)), bndT(a, o, n, IntLit(0)), bndT(a, o, n, n))))
-	x.unfoldBndD(s, a, o, n, IntLit(0), 2, 1)
-	x.unfoldBndD(s, a, o, n, n, 2, -1)
+	d := 2
+	if a.hasBound || o.hasBound || n.hasBound {
+		d = 1 // inside quantifiers: one step only (keeps the bodies small)
+	}
+	x.unfoldBndD(s, a, o, n, IntLit(0), d, 1)
+	x.unfoldBndD(s, a, o, n, n, d, -1)
+	// I0 (the empty sequence is well-formed), instantiated for this sequence
+	s.assume(Implies(Eq(n, IntLit(0)), And(w, bndEquiv(x, a, o, n, func(i *Term) *Term { return Eq(i, IntLit(0)) }))))
 	x.eng.usedWf = true
 	return w
 }
@@ -152,7 +161,10 @@ func bndEquiv(x *Exec, b, o2, m *Term, rhs func(i *Term) *Term) *Term {
 	i := BoundVar(sanitizeSym(x.freshName("bi")), SInt)
 	lhs := bndT(b, o2, m, i)
 	r := rhs(i)
-	pats := [][]*Term{{lhs}}
+	pats := [][]*Term{}
+	if !hasIte(b) && !hasIte(o2) && !hasIte(m) {
+		pats = append(pats, []*Term{lhs})
+	}
 	// also trigger on boundary terms of the source sequence that are applied to the bare variable
 	var find func(t *Term)
 	seen := map[*Term]bool{}
